@@ -47,6 +47,10 @@ EXPLANATION += " Added after the clause-coverage audit: (R12) Molekel `$$` separ
 TECHNIQUE += '; writer blocks against reader blocks for the FCHK basis, the WFN primitive lists and the Molden [GTO] centres'
 EXPLANATION += " Added: (R17) the FCHK basis block of dump_one against the block of load_one that rebuilds the shells (s, SP, pure d, Cartesian f, p, pure g); (R18) the WFN centre / type / exponent lists against the format's TYPE ASSIGNMENTS numbering and the reader's build_obasis; (R19) the `[GTO]` part of the Molden writer against `_load_helper_obasis` on bases with atoms that carry no functions and shells not grouped by atom: the atom number heading a block attaches its shells. The guard matrix (R6) has rows for ghost centres and for shells listed out of atom order."
 # --- end metadata batch 8
+# --- metadata added after the round-2 refactoring twins
+
+EXPLANATION += ' R15 (WFX spin labels): the reading side is the whole wfx.load_one with the section parser and the basis builder replaced by model values.'
+# --- end metadata round-2 twins
 
 
 def module_closure(prog, root):
